@@ -436,6 +436,11 @@ func (s *sut) apply(f []string) (res string, resolved []string, err error) {
 		}
 		s.lastClear = L
 		return "ok", f, nil
+	case f[0] == "snapshot" && len(f) == 1:
+		// debug accessor: reads every value through store.Get (recency promotion of every key, oldest first)
+		return "n=" + strconv.Itoa(len(s.cache.Snapshot())), f, nil
+	case f[0] == "keys" && len(f) == 2:
+		return "n=" + strconv.Itoa(len(s.cache.Keys(f[1]))), f, nil
 	case f[0] == "flush" && len(f) == 1:
 		realFlush(s.cache)
 		return "ok", f, nil
